@@ -157,6 +157,17 @@ def open_scenarios(run: Run, model: PyModel) -> None:
         if rk is not None:
             run.check("C17.R3", f"option {k} opens what a line holding only the {k}-th target ({t}) opens", rk == r1 and bool(r1[1]), "run_action_open", f"option {k}: {rk} vs alone: {r1}"[:300],
                       f"option {k} of `{multi}` answers {rk}, a line holding only {t} answers {r1}: the option opens a different target (or a target that is offered cannot be opened)", file=FILE, node=fo.node)
+    # punctuation on EITHER side of a target is stripped, whichever of ( ) , . ? ! ; : it is: the wrapped target opens what the bare one opens
+    for k in (1, 4, 8):
+        if k not in singles:
+            continue
+        for wrap in ("!{}", "?{}", ",{}", ".{}", ";{}", ":{}", "){}", "{}(", "({}).", "?({})!"):
+            w = wrap.format(targets[k - 1])
+            rw = go(f"a line holding only {w}", "p.zo", ["# Page", "", f"- 240101#A1 pad {w} end", ""], 3, None)
+            if rw is not None:
+                run.check("C17.R3", f"`{w}` opens what `{targets[k - 1]}` opens", rw == singles[k], "run_action_open", f"{w}: {rw} vs bare: {singles[k]}"[:300],
+                          f"a line holding `{w}` answers {rw}, the bare target {targets[k - 1]} answers {singles[k]}: punctuation around a target is not stripped on both sides, so the target is offered "
+                          "with the punctuation attached and cannot be opened", file=FILE, node=fo.node)
     rl = go("option -1 of the twelve-target line", "p.zo", page, 3, -1)
     if rl is not None and len(targets) in singles:
         run.check("C17.R3", "option -1 opens the last target", rl == singles[len(targets)], "run_action_open", f"option -1: {rl}"[:200],
@@ -217,7 +228,7 @@ def open_scenarios(run: Run, model: PyModel) -> None:
             run.check("C17.R2", f"{label}: {wouts}", v == 0 and outs == wouts, "run_action_open", f"{label}: {outs} status {v!r}",
                       f"{label} (`{line}`): the answer is {outs} with status {v!r}, expected {wouts}: the page name is resolved against the notes directory in a way that depends on how that directory is spelled",
                       file=FILE, node=fo.node)
-    run.floor("action-open scenarios", n, 39)
+    run.floor("action-open scenarios", n, 69)
 
 
 def id_lookup_statement(run: Run, model: PyModel) -> None:
